@@ -654,6 +654,10 @@ class NpyArray:
 
     def __setitem__(self, sl, value):
         """Set data at slice `sl` to `value`."""
+        if self._header_bytes_to_write:
+            # Data written through the memmap reaches the file at once. Bring the header
+            # up to date first so that the file never shows new data under an old length.
+            self.flush()
         self.memmap[sl] = value
 
     def __len__(self):
